@@ -59,6 +59,9 @@ func (s *State) evalAssignment(right object.Object, node *ast.InfixExpression) o
 }
 
 func (s *State) evalIndexAssigment(which ast.Node, index, value object.Object) object.Object {
+	if reg, ok := which.(*object.Register); ok { // integer parameter or loop variable: same error as without registers.
+		return s.Errorf("index assignment to %s of unexpected type %s", reg.Literal(), object.INTEGER.String())
+	}
 	if which.Value().Type() != token.IDENT {
 		return s.NewError("index assignment to non identifier: " + which.Value().DebugString())
 	}
